@@ -51,6 +51,8 @@ def write_dataset(spec, root):
     import fastparquet
     from fastparquet import writer
     df = build_frame(spec)
+    if spec.get("index"):
+        df = df.set_index(spec["index"])
     kw = {}
     if spec.get("has_nulls") is False:
         kw["has_nulls"] = False
